@@ -166,3 +166,12 @@ Fixpoint cuts_sum (capmax : Z) (s : bytes) (l : list (nat * nat)) (i : Z) : Z :=
 Definition check_cuts (c : bytes * Z * nat * Z) : bool :=
   let '(s, capmax, stride, want) := c in
   cuts_sum capmax s (cut_pairs (length s) stride) 0 =? want.
+
+(* ---- whole run observed from outside (through Subprocess.finish()):
+   (capmax, reads, log file bytes, PROCESS_COMMUNICATION data) *)
+Definition check_final (c : Z * list bytes * bytes * list bytes) : bool :=
+  let '(capmax, frags, log, comms) := c in
+  match run_d begin_token end_token capmax tr_id frags with
+  | Ok _ out => zlist_eqb (eff_logfile tr_id out) log && list_eqb zlist_eqb (eff_comms out) comms
+  | Crash => false
+  end.
